@@ -96,6 +96,53 @@ Definition expand_case (limit : Z) (dirs : list (option Z)) (ms : list msg) : ca
    exceed the limit; otherwise the RPC fails with resource_exhausted. *)
 Definition accepts (limit size : Z) : bool := size <=? limit.
 
+(* The limit is PER MESSAGE: a stream (client stream / bidi requests at the server, server stream /
+   bidi responses at the client) is accepted iff every message in it is; it fails with
+   resource_exhausted at the first message that is not.  Neither the number of messages nor the
+   length of the body they travel in (declared up front or not) enters. *)
+Definition stream_accepts (limit : Z) (sizes : list Z) : bool := forallb (accepts limit) sizes.
+
+Fixpoint first_rejected (limit : Z) (sizes : list Z) : option nat :=
+  match sizes with
+  | [] => None
+  | s :: rest => if accepts limit s then option_map S (first_rejected limit rest) else Some O
+  end.
+
+(* ---------- the loader: which test cases of a suite get expanded ---------- *)
+(* parseTestSuites, per suite file: for every test case, in order: a case that carries expand
+   directives in a suite whose relevant codecs are not exactly [CODEC_PROTO] is an error; then
+   expandRequestData.  The first error rejects the whole load.  The suite's other directives
+   (relies_on_message_receive_limit, mode, ...) and the case's stream type are carried along
+   and NOT consulted: that they are irrelevant is the point of marked_is_expanded_or_rejected. *)
+Record tcase := { t_stream : Z; t_dirs : list (option Z); t_msgs : list msg }.
+Record suite := { s_flag : bool; s_mode : Z; s_codecs : list Z; s_cases : list tcase }.
+
+Inductive load_err := LCodec | LExpand (e : err_tag).
+Inductive load_res := LOk (out : list (list msg)) | LErr (i : nat) (e : load_err) | LCrash.
+
+Definition codec_proto : Z := 1.
+(* the code rejects on `len(codecs) > 1 || !hasCodec(codecs, CODEC_PROTO)` *)
+Definition codecs_proto_only (cs : list Z) : bool :=
+  negb (1 <? length cs)%nat && existsb (Z.eqb codec_proto) cs.
+
+Definition l_cons (ms : list msg) (r : load_res) : load_res :=
+  match r with LOk out => LOk (ms :: out) | other => other end.
+
+Fixpoint load_cases (limit : Z) (codecs : list Z) (i : nat) (cs : list tcase) : load_res :=
+  match cs with
+  | [] => LOk []
+  | tc :: rest =>
+    if negb (length (t_dirs tc) =? 0)%nat && negb (codecs_proto_only codecs) then LErr i LCodec
+    else match expand_case limit (t_dirs tc) (t_msgs tc) with
+         | COk ms' => l_cons ms' (load_cases limit codecs (S i) rest)
+         | CErr e => LErr i (LExpand e)
+         | CCrash => LCrash
+         end
+  end.
+
+Definition load_suite (limit : Z) (s : suite) : load_res :=
+  load_cases limit (s_codecs s) 0 (s_cases s).
+
 (* ---------- case decoding / result encoding (extracted glue) ---------- *)
 Definition un_Z := un_I.
 
@@ -177,7 +224,62 @@ Definition run_c19_wiring (args : list sx) : sx :=
          end)
   | _ => None end).
 
+(* ("c19.stream" id side (offs) sender httpVersion protocol compression streamType fill):
+   a stream of length(offs) messages, message i of uncompressed size limit + offs[i]
+   (side 0: requests of a client stream / bidi stream against the server limit; side 1: responses
+   of a server stream / bidi stream against the client limit).  sender (side 0): 0 = the reference
+   client, 1 = a plain HTTP client that does not declare the body length, 2 = one that declares it
+   (Content-Length).  Only side and offs matter to the verdict.
+   Result: (limit (sizes) accepted k); k = -1 if accepted, the index of the first rejected message
+   where the receiver's progress is observable (the reference client's payload count: side 1, and
+   full-duplex bidi streams, where the server answers each request before reading the next),
+   -2 otherwise. *)
+Definition run_c19_stream (args : list sx) : sx :=
+  or_bad (match args with
+  | [I side; offs; I _; I _; I _; I _; I st; I _] =>
+    do offs <- un_listof un_Z offs;
+    let limit := if side =? 0 then c19_server_receive_limit else c19_client_receive_limit in
+    let sizes := map (fun o => limit + o) offs in
+    let k := match first_rejected limit sizes with
+             | None => -1
+             | Some i => if (side =? 1) || (st =? 5) then Z.of_nat i else -2
+             end in
+    ret (L [I limit; L (map I sizes); sx_bool (stream_accepts limit sizes); I k])
+  | _ => None end).
+
+(* ("c19.load" id flag mode (codecs) ((streamType (msgs) (dirs))...)): one suite file through
+   parseTestSuites.  Result: per test case the messages as in c19.expand, or (err tag i) with the
+   index of the test case the load failed on. *)
+Definition un_tcase (s : sx) : option tcase :=
+  match s with
+  | L [I st; ms; ds] =>
+    do ms <- un_listof un_msg ms; do ds <- un_listof un_dir ds;
+    ret {| t_stream := st; t_dirs := ds; t_msgs := ms |}
+  | _ => None
+  end.
+
+Definition sx_load_res (r : load_res) : sx :=
+  match r with
+  | LOk out => L (map (fun ms => L (map sx_msg ms)) out)
+  | LErr i LCodec => L [B (bs "err"); B (bs "codec"); I (Z.of_nat i)]
+  | LErr i (LExpand ETooMany) => L [B (bs "err"); B (bs "too-many"); I (Z.of_nat i)]
+  | LErr i (LExpand ERange) => L [B (bs "err"); B (bs "range"); I (Z.of_nat i)]
+  | LErr i (LExpand EUnpaddable) => L [B (bs "err"); B (bs "unpaddable"); I (Z.of_nat i)]
+  | LErr i (LExpand EUnreachable) => L [B (bs "err"); B (bs "unreachable"); I (Z.of_nat i)]
+  | LCrash => sx_crash
+  end.
+
+Definition run_c19_load (args : list sx) : sx :=
+  or_bad (match args with
+  | [I flag; I mode; codecs; cases] =>
+    do codecs <- un_listof un_Z codecs; do cases <- un_listof un_tcase cases;
+    ret (sx_load_res (load_suite c19_server_receive_limit
+           {| s_flag := negb (flag =? 0); s_mode := mode; s_codecs := codecs; s_cases := cases |}))
+  | _ => None end).
+
 Definition c19_table : list (bytes * (list sx -> sx)) :=
   [ (bs "c19.expand", run_c19_expand);
     (bs "c19.sharp", run_c19_sharp);
-    (bs "c19.wiring", run_c19_wiring) ].
+    (bs "c19.wiring", run_c19_wiring);
+    (bs "c19.stream", run_c19_stream);
+    (bs "c19.load", run_c19_load) ].
